@@ -689,12 +689,14 @@ def chain_ops(env):
         S = env.objs[s]
         S.compress_config = CompressConfig(CompressCriteria.fixed, max_bonddim=int(rng.integers(2, 6)))
         sd = int(rng.integers(0, 2 ** 31 - 1))
+        include_ex = bool(rng.random() < 0.5)
+        hint = bool(rng.random() < 0.8)
 
         def call():
             np.random.seed(sd)
-            return S.expand_bond_dimension(env.objs[h], coef=1e-3)
+            return S.expand_bond_dimension(env.objs[h] if hint else None, coef=1e-3, include_ex=include_ex)
         # expand_bond_dimension adds an expander to self through Mps.add: coefficient folding applies
-        return "expand_bond_dimension", [s, h], True, call, {}
+        return "expand_bond_dimension", [s, h] if hint else [s], True, call, dict(include_ex=include_ex, hint=hint)
 
     env.op_evolve = op_evolve
     env.op_evolve_exact = op_evolve_exact
@@ -1218,9 +1220,22 @@ def tree_ops(env):
             return TTNS.from_tensors(T, v * 2.0)
         return "TTNS.from_tensors", [a], False, call, {}
 
+    def op_expand():
+        from renormalizer.mps.mps import expand_bond_dimension_general
+        a = env.pick(env.states())
+        T = env.objs[a]
+        T.compress_config = CompressConfig(CompressCriteria.fixed, max_bonddim=int(rng.integers(2, 6)))
+        sd = int(rng.integers(0, 2 ** 31 - 1))
+        hint = bool(rng.random() < 0.7)
+
+        def call():
+            np.random.seed(sd)
+            return expand_bond_dimension_general(T, hint_mpo=env.objs["H"] if hint else None, coef=1e-3)
+        return "expand_bond_dimension_general", [a, "H"] if hint else [a], True, call, dict(hint=hint)
+
     env.op_evolve = op_evolve
     return [op_copy, op_copy, op_scale, op_add, op_add, op_apply, op_apply, op_measure, op_measure, op_measure,
-            op_copy_then_mutate, op_copy_then_mutate, op_evolve, op_evolve, op_evolve, op_optimize, op_from_tensors]
+            op_copy_then_mutate, op_copy_then_mutate, op_evolve, op_evolve, op_evolve, op_optimize, op_from_tensors, op_expand]
 
 
 def run_tree_call(run, env, thunk):
